@@ -556,4 +556,380 @@ theorem canonPath_render (p : Str) (m : Bool) (h : absPath p = true) :
   rw [canonPath_eq]
   exact resolvePath_eq _ _ (absPath_unquotePath p h)
 
+/-! ## the view of a canonical spelling -/
+
+theorem foldl_segStep_normal (xs : List Str) (h : ∀ x ∈ xs, Normal x) :
+    ∀ st, xs.foldl segStep st = st ++ xs := by
+  induction xs with
+  | nil => simp
+  | cons x r ih =>
+    intro st
+    obtain ⟨h0, h1, h2, _⟩ := h x (by simp)
+    rw [List.foldl_cons, ih (fun y hy => h y (by simp [hy]))]
+    simp [segStep, h0, h1, h2]
+
+theorem dotLike_normal {x : Str} (h : Normal x) : dotLike x = false := by
+  simp [dotLike, h.1, h.2.1, h.2.2.1]
+
+theorem isEmpty_eq_false {α} {F : List α} (h : F ≠ []) : F.isEmpty = false := by
+  cases F with
+  | nil => exact absurd rfl h
+  | cons _ _ => rfl
+
+/-- a view in the range of `segView`: normal segments, no flag at the root -/
+def ViewOk (v : List Str × Bool) : Prop := (∀ x ∈ v.1, Normal x) ∧ (v.1 = [] → v.2 = false)
+
+theorem viewOk_segView (p : Str) : ViewOk (segView p) := by
+  refine ⟨normal_segView p, ?_⟩
+  intro h
+  have : (segView p).2 = (!(segView p).1.isEmpty && ((splitOn p '/').getLast?.any dotLike)) := rfl
+  rw [this, h]; rfl
+
+/-- **Theorem B**: the view of the canonical spelling of a view is that view -/
+theorem segView_render (v : List Str × Bool) (m : Bool) (hv : ViewOk v) :
+    segView (renderSegs v m) = v := by
+  obtain ⟨F, fl⟩ := v
+  obtain ⟨hn, h0⟩ := hv
+  simp only at hn h0
+  by_cases hF : F = []
+  · subst hF
+    have := h0 rfl; subst this
+    cases m <;> decide
+  · have hfree : ∀ x ∈ F, '/' ∉ x := fun x hx => (hn x hx).2.2.2
+    have hemp := isEmpty_eq_false hF
+    have hfold : F.foldl segStep [] = F := by simpa using foldl_segStep_normal F hn []
+    unfold renderSegs
+    simp only [hemp, Bool.false_eq_true, if_false]
+    cases fl with
+    | true =>
+      have hs : splitOn ('/' :: join ['/'] F ++ ['/']) '/' = [] :: (F ++ [[]]) := by
+        rw [List.cons_append, splitOn_abs, splitOn_append_sep', splitOn_join '/' F hF hfree,
+          splitOn_nil]
+      simp only [if_true, segView, hs, List.foldl_cons, List.foldl_append, List.foldl_nil]
+      have e1 : segStep [] [] = [] := by simp [segStep]
+      rw [e1, hfold]
+      have e2 : segStep F [] = F := by simp [segStep]
+      rw [e2, hemp]
+      have e3 : ([] :: (F ++ [[]]) : List Str).getLast? = some [] := by
+        rw [← List.cons_append, List.getLast?_append]; simp
+      rw [e3]
+      simp [dotLike]
+    | false =>
+      have hs : splitOn ('/' :: join ['/'] F ++ []) '/' = [] :: F := by
+        rw [List.append_nil, splitOn_abs, splitOn_join '/' F hF hfree]
+      simp only [Bool.false_eq_true, if_false, segView, hs, List.foldl_cons]
+      have e1 : segStep [] [] = [] := by simp [segStep]
+      rw [e1, hfold, hemp]
+      rw [List.getLast?_cons_of_ne_nil hF, List.getLast?_eq_some_getLast hF]
+      simp [dotLike_normal (hn _ (List.getLast_mem hF))]
+
+theorem absPath_render (v : List Str × Bool) (m : Bool) : absPath (renderSegs v m) = true := by
+  unfold renderSegs
+  split
+  · cases m <;> decide
+  · simp [absPath, startsWith]
+
+/-- the path rule keeps the view -/
+theorem segView_resolvePath (q : Str) (m : Bool) (h : absPath q = true) :
+    segView (resolvePath q m) = segView q := by
+  rw [resolvePath_eq q m h, segView_render _ _ (viewOk_segView q)]
+
+/-- the path rule is idempotent (whatever the two `hasMore` flags) -/
+theorem resolvePath_idem (q : Str) (m m' : Bool) (h : absPath q = true) :
+    resolvePath (resolvePath q m) m' = resolvePath q m' := by
+  have h2 : absPath (resolvePath q m) = true := by rw [resolvePath_eq q m h]; exact absPath_render _ _
+  rw [resolvePath_eq _ m' h2, segView_resolvePath q m h, ← resolvePath_eq q m' h]
+
+/-- two absolute paths with the same view have the same image under the path rule -/
+theorem resolvePath_congr (q q' : Str) (m : Bool) (h : absPath q = true) (h' : absPath q' = true)
+    (hv : segView q = segView q') : resolvePath q m = resolvePath q' m := by
+  rw [resolvePath_eq q m h, resolvePath_eq q' m h', hv]
+
+/-! ## escapes: fixed points of `safely_unquote_path` -/
+
+theorem asciiSet_path : AsciiSet Gen.Quote.unsafeForPath := by unfold AsciiSet; decide
+
+theorem unquotePath_idem (s : Str) : unquotePath (unquotePath s) = unquotePath s := by
+  have hU : (0x25 : UInt8) ∈ Gen.Quote.unsafeForPath := by decide
+  have hout := outTok_unquoteToks Gen.Quote.unsafeForPath (tokens s) (wf_tokens s)
+  have h : tokens (safelyUnquote Gen.Quote.unsafeForPath s) =
+      unquoteToks Gen.Quote.unsafeForPath (tokens s) :=
+    tokens_render_of_canon _ (fun t ht => canon_of_outTok hU (wf_tokens s) (hout t ht))
+  unfold unquotePath safelyUnquote at h ⊢
+  rw [h, unquoteToks_idem _ hU asciiSet_path]
+
+/-- an unescaped string: `safely_unquote_path` leaves it alone -/
+def Unq (s : Str) : Prop := unquotePath s = s
+
+theorem splitOn_unquotePath (s : Str) :
+    splitOn (unquotePath s) '/' = (splitOn s '/').map unquotePath :=
+  splitOn_safelyUnquote _ sep_slash (by decide) (by decide) (by decide) s
+
+/-- the segments of an unescaped string are unescaped -/
+theorem unq_segments {s : Str} (h : Unq s) : ∀ x ∈ splitOn s '/', Unq x := by
+  have e := splitOn_unquotePath s
+  rw [h] at e
+  intro x hx
+  rw [e] at hx
+  simp only [List.mem_map] at hx
+  obtain ⟨y, _, rfl⟩ := hx
+  exact unquotePath_idem y
+
+theorem unquotePath_join (parts : List Str) (hne : parts ≠ []) :
+    unquotePath (join ['/'] parts) = join ['/'] (parts.map unquotePath) :=
+  safelyUnquote_join _ sep_slash (by decide) parts hne
+
+theorem unquotePath_append_slash (a b : Str) :
+    unquotePath (a ++ '/' :: b) = unquotePath a ++ '/' :: unquotePath b :=
+  safelyUnquote_append_sep _ sep_slash (by decide) a b
+
+/-- the canonical spelling of a view made of unescaped segments is unescaped -/
+theorem unq_render (v : List Str × Bool) (m : Bool) (h : ∀ x ∈ v.1, Unq x) :
+    Unq (renderSegs v m) := by
+  unfold Unq renderSegs
+  split
+  · cases m <;> decide
+  · rename_i hF
+    have hF' : v.1 ≠ [] := by intro e; rw [e] at hF; exact hF rfl
+    have hmap : v.1.map unquotePath = v.1 := by
+      conv => rhs; rw [← List.map_id v.1]
+      exact List.map_congr_left (fun x hx => h x hx)
+    cases v.2 with
+    | true =>
+      simp only [if_true]
+      have : '/' :: join ['/'] v.1 ++ ['/'] = ([] : Str) ++ '/' :: (join ['/'] v.1 ++ '/' :: []) := by simp
+      rw [this, unquotePath_append_slash, unquotePath_append_slash, unquotePath_join _ hF', hmap,
+        unquotePath_nil]
+    | false =>
+      simp only [Bool.false_eq_true, if_false, List.append_nil]
+      rw [unquotePath_slash, unquotePath_join _ hF', hmap]
+
+theorem segView_subset (p : Str) : ∀ x ∈ (segView p).1, x ∈ splitOn p '/' := by
+  intro x hx
+  rcases mem_foldl_segStep _ [] x hx with h | h
+  · simp at h
+  · exact h.1
+
+/-- the path rule maps unescaped paths to unescaped paths -/
+theorem unq_resolvePath (q : Str) (m : Bool) (h : absPath q = true) (hq : Unq q) :
+    Unq (resolvePath q m) := by
+  rw [resolvePath_eq q m h]
+  exact unq_render _ _ (fun x hx => unq_segments hq x (segView_subset q x hx))
+
+/-- **the second `safely_unquote_path` of unquoted mode is a no-op** -/
+theorem unquotePath_canonPath (p : Str) (m : Bool) (h : absPath p = true) :
+    unquotePath (canonPath p m) = canonPath p m :=
+  unq_resolvePath _ m (absPath_unquotePath p h) (unquotePath_idem p)
+
+theorem absPath_canonPath (p : Str) (m : Bool) (h : absPath p = true) :
+    absPath (canonPath p m) = true := by
+  rw [canonPath_render p m h]; exact absPath_render _ _
+
+/-- **path idempotence**: canonicalizing the canonical path (whatever the `hasMore` flags of
+the two passes) gives the canonical path -/
+theorem canonPath_idem (p : Str) (m m' : Bool) (h : absPath p = true) :
+    canonPath (canonPath p m) m' = canonPath p m' := by
+  rw [canonPath_eq (canonPath p m), unquotePath_canonPath p m h, canonPath_eq p m,
+    resolvePath_idem _ m m' (absPath_unquotePath p h), canonPath_eq]
+
+/-- the key of a path: resolved unescaped segments + trailing-slash flag; by
+`splitOn_unquotePath` it is computed segment-wise from the escaped path -/
+def pathKey (p : Str) : List Str × Bool := segView (unquotePath p)
+
+theorem pathKey_eq (p : Str) :
+    pathKey p = (((splitOn p '/').map unquotePath).foldl segStep [],
+      !(((splitOn p '/').map unquotePath).foldl segStep []).isEmpty &&
+        (((splitOn p '/').map unquotePath).getLast?.any dotLike)) := by
+  simp only [pathKey, segView, splitOn_unquotePath]
+
+/-- **`canonPath` factors through the key** -/
+theorem canonPath_congr (p p' : Str) (m : Bool) (h : absPath p = true) (h' : absPath p' = true)
+    (hk : pathKey p = pathKey p') : canonPath p m = canonPath p' m := by
+  rw [canonPath_render p m h, canonPath_render p' m h']
+  unfold pathKey at hk
+  rw [hk]
+
+/-! ## the decoded view (the meaning of a path in C01's statement)
+
+`byteView` is `Props.C01.pathView` (same definition, `rfl`): segments are percent-decoded
+before dot segments are detected.  On an unescaped path decoded dot segments are literal dot
+segments (`dotHonest_of_unq`), so the decoded view is the image of the plain view. -/
+
+def byteStep (acc : List (List UInt8)) (s : List UInt8) : List (List UInt8) :=
+  if s = [] ∨ s = [0x2E] then acc else if s = [0x2E, 0x2E] then acc.dropLast else acc ++ [s]
+
+def byteView (path : Str) : List (List UInt8) × Bool :=
+  let ds := (splitOn path '/').map pctStr
+  let r := ds.foldl byteStep []
+  (r, !r.isEmpty && (ds.getLast? = some [] || ds.getLast? = some [0x2E] || ds.getLast? = some [0x2E, 0x2E]))
+
+/-- a segment whose decoded form is a dot segment only if it literally is one -/
+def DotHonest (s : Str) : Prop :=
+  (pctStr s = [] → s = []) ∧ (pctStr s = [0x2E] → s = ['.']) ∧ (pctStr s = [0x2E, 0x2E] → s = ['.', '.'])
+
+theorem byteStep_map (acc : List Str) (s : Str) (h : DotHonest s) :
+    byteStep (acc.map pctStr) (pctStr s) = (segStep acc s).map pctStr := by
+  obtain ⟨h0, h1, h2⟩ := h
+  have d0 : pctStr [] = [] := by decide
+  have d1 : pctStr ['.'] = [0x2E] := by decide
+  have d2 : pctStr ['.', '.'] = [0x2E, 0x2E] := by decide
+  unfold byteStep segStep
+  by_cases e0 : s = []
+  · subst e0; simp [d0]
+  · by_cases e1 : s = ['.']
+    · subst e1; simp [d1]
+    · have n0 : pctStr s ≠ [] := fun e => e0 (h0 e)
+      have n1 : pctStr s ≠ [0x2E] := fun e => e1 (h1 e)
+      by_cases e2 : s = ['.', '.']
+      · subst e2; simp [d2, List.map_dropLast]
+      · have n2 : pctStr s ≠ [0x2E, 0x2E] := fun e => e2 (h2 e)
+        simp [e0, e1, e2, n0, n1, n2]
+
+theorem foldl_byteStep_map (ds : List Str) (h : ∀ s ∈ ds, DotHonest s) : ∀ (acc : List Str),
+    (ds.map pctStr).foldl byteStep (acc.map pctStr) = (ds.foldl segStep acc).map pctStr := by
+  induction ds with
+  | nil => intro acc; rfl
+  | cons d r ih =>
+    intro acc
+    simp only [List.map_cons, List.foldl_cons]
+    rw [byteStep_map acc d (h d (by simp)), ih (fun s hs => h s (by simp [hs]))]
+
+theorem dotLike_pct (l : Str) (h : DotHonest l) :
+    (decide (some (pctStr l) = some ([] : List UInt8)) || decide (some (pctStr l) = some [0x2E]) ||
+      decide (some (pctStr l) = some [0x2E, 0x2E])) = dotLike l := by
+  obtain ⟨h0, h1, h2⟩ := h
+  have d0 : pctStr [] = [] := by decide
+  have d1 : pctStr ['.'] = [0x2E] := by decide
+  have d2 : pctStr ['.', '.'] = [0x2E, 0x2E] := by decide
+  unfold dotLike
+  by_cases e0 : l = []
+  · subst e0; simp [d0]
+  · by_cases e1 : l = ['.']
+    · subst e1; simp [d1]
+    · by_cases e2 : l = ['.', '.']
+      · subst e2; simp [d2]
+      · have n0 : pctStr l ≠ [] := fun e => e0 (h0 e)
+        have n1 : pctStr l ≠ [0x2E] := fun e => e1 (h1 e)
+        have n2 : pctStr l ≠ [0x2E, 0x2E] := fun e => e2 (h2 e)
+        simp [e0, e1, e2, n0, n1, n2]
+
+/-- the decoded view of a path whose segments are dot-honest is the decoded plain view -/
+theorem byteView_eq (p : Str) (h : ∀ s ∈ splitOn p '/', DotHonest s) :
+    byteView p = ((segView p).1.map pctStr, (segView p).2) := by
+  have hne := splitOn_ne_nil p '/'
+  have hf := foldl_byteStep_map (splitOn p '/') h []
+  simp only [List.map_nil] at hf
+  unfold byteView segView
+  simp only [hf, List.isEmpty_map]
+  congr 2
+  rw [List.getLast?_map, List.getLast?_eq_some_getLast hne]
+  simp only [Option.map_some, Option.any_some]
+  exact dotLike_pct _ (h _ (List.getLast_mem hne))
+
+/-! ### unescaped strings are dot-honest -/
+
+theorem pctTok_ne_nil (t : Tok) : pctTok t ≠ [] := by
+  cases t with
+  | raw c => exact utf8_ne_nil c
+  | esc h1 h2 => simp [pctTok]
+  | stray => simp [pctTok]
+
+theorem pct_eq_nil {ts : List Tok} (h : pct ts = []) : ts = [] := by
+  cases ts with
+  | nil => rfl
+  | cons t r =>
+    simp only [pct, List.flatMap_cons, List.append_eq_nil_iff] at h
+    exact absurd h.1 (pctTok_ne_nil t)
+
+theorem utf8_dot : utf8 '.' = [0x2E] := by decide
+
+/-- only `.` has a UTF-8 encoding that starts with 0x2E -/
+theorem utf8_head_dot {c : Char} {l : List UInt8} (h : utf8 c = 0x2E :: l) : c = '.' := by
+  have h1 := decodeHead_utf8_append c []
+  rw [List.append_nil, h] at h1
+  have h2 := decodeHead_utf8_append '.' l
+  rw [utf8_dot] at h2
+  simp only [List.singleton_append] at h2
+  rw [h1] at h2
+  exact Option.some.inj h2
+
+/-- a token whose decoded bytes start with 0x2E decodes to exactly `[0x2E]` -/
+theorem pctTok_head_dot {t : Tok} {l : List UInt8} (h : pctTok t = 0x2E :: l) : pctTok t = [0x2E] := by
+  cases t with
+  | raw c =>
+    simp only [pctTok] at h ⊢
+    rw [utf8_head_dot h, utf8_dot]
+  | esc h1 h2 => simp only [pctTok, List.cons.injEq] at h ⊢; exact ⟨h.1, trivial⟩
+  | stray => simp [pctTok] at h
+
+theorem pct_head_dot {ts : List Tok} {rest : List UInt8} (h : pct ts = 0x2E :: rest) :
+    ∃ t ts', ts = t :: ts' ∧ pctTok t = [0x2E] ∧ pct ts' = rest := by
+  cases ts with
+  | nil => simp [pct] at h
+  | cons t r =>
+    refine ⟨t, r, rfl, ?_⟩
+    simp only [pct, List.flatMap_cons] at h
+    have hne := pctTok_ne_nil t
+    obtain ⟨b, l, hbl⟩ := List.exists_cons_of_ne_nil hne
+    rw [hbl] at h
+    simp only [List.cons_append, List.cons.injEq] at h
+    have hb : pctTok t = 0x2E :: l := by rw [hbl, h.1]
+    have h1 := pctTok_head_dot hb
+    refine ⟨h1, ?_⟩
+    rw [h1] at hbl
+    simp only [List.cons.injEq] at hbl
+    rw [← hbl.2] at h
+    simpa [pct] using h.2
+
+/-- `safely_unquote_path` turns every spelling of a dot (`.`, `%2E`, `%2e`) into a raw dot -/
+theorem itemOf_dot {t : Tok} (h : pctTok t = [0x2E]) :
+    itemOf Gen.Quote.unsafeForPath t = .lit (.raw '.') := by
+  cases t with
+  | raw c =>
+    simp only [pctTok] at h
+    rw [utf8_head_dot h]
+    simp [itemOf]
+  | esc h1 h2 =>
+    simp only [pctTok, List.cons.injEq, and_true] at h
+    have hk : keepEsc Gen.Quote.unsafeForPath 0x2E = false := by decide
+    have hc : Char.ofNat (UInt8.toNat 0x2E) = '.' := by decide
+    simp only [itemOf, h, hk, hc, Bool.false_eq_true, if_false]
+    have h1 : (0x2E : UInt8) < 128 := by decide
+    have h2 : ¬ ((0x2E : UInt8) = 32) := by decide
+    simp only [h1, h2, if_true, if_false]
+  | stray => simp [pctTok] at h
+
+theorem dotHonest_of_unq {s : Str} (hs : Unq s) : DotHonest s := by
+  refine ⟨?_, ?_, ?_⟩
+  · intro h
+    have := pct_eq_nil (ts := tokens s) h
+    rw [← render_tokens s, this]; rfl
+  · intro h
+    obtain ⟨t, ts', e, ht, hr⟩ := pct_head_dot (ts := tokens s) h
+    have e' := pct_eq_nil hr
+    subst e'
+    rw [← hs]
+    simp only [unquotePath, safelyUnquote, unquoteToks, e, List.map_cons, List.map_nil,
+      itemOf_dot ht, assemble, flush_nil]
+    rfl
+  · intro h
+    obtain ⟨t, ts', e, ht, hr⟩ := pct_head_dot (ts := tokens s) h
+    obtain ⟨t2, ts'', e2, ht2, hr2⟩ := pct_head_dot hr
+    have e' := pct_eq_nil hr2
+    subst e'
+    subst e2
+    rw [← hs]
+    simp only [unquotePath, safelyUnquote, unquoteToks, e, List.map_cons, List.map_nil,
+      itemOf_dot ht, itemOf_dot ht2, assemble, flush_nil]
+    rfl
+
+theorem dotHonest_segments {q : Str} (hq : Unq q) : ∀ s ∈ splitOn q '/', DotHonest s :=
+  fun s hs => dotHonest_of_unq (unq_segments hq s hs)
+
+/-- **the path rule keeps the decoded view** of an unescaped absolute path -/
+theorem byteView_resolvePath (q : Str) (m : Bool) (h : absPath q = true) (hq : Unq q) :
+    byteView (resolvePath q m) = byteView q := by
+  rw [byteView_eq _ (dotHonest_segments (unq_resolvePath q m h hq)), byteView_eq _ (dotHonest_segments hq),
+    segView_resolvePath q m h]
+
 end Ural.Normpath
